@@ -1,7 +1,7 @@
 """Share / connectable parts (C11): sequential definitions ShareSeq.tla / ConnSeq.tla enumerated by TLC and replayed."""
 import parts_pipeline as pp
 
-CLASS_PROPS = {'deliveries': ['C11'], 'upstream-live': ['C11'], 'upstream-total': ['C11'], 'hang': ['C11', 'C07'], 'panic': ['C11', 'C07']}
+CLASS_PROPS = {'deliveries': ['C11'], 'upstream-live': ['C11', 'C03'], 'upstream-total': ['C11'], 'hang': ['C11', 'C07'], 'panic': ['C11', 'C07']}
 
 
 def run_seq(rep, pid, thorough):
